@@ -63,8 +63,9 @@ class Vocab(object):
     envs:   name -> {'sig': [...], 'math': bool}
     """
     def __init__(self, macros, envs, specials, math_specials=(), unknown_ok=True, verb=True,
-                 par_is_specials=True, make_ctx=None, name='default'):
+                 par_is_specials=True, make_ctx=None, name='default', verb_envs=()):
         self.macros = macros
+        self.verb_envs = list(verb_envs)   # environments whose body is read by LatexVerbatimEnvironmentContentsParser
         self.envs = envs
         self.specials = list(specials)
         self.math_specials = list(math_specials)
@@ -283,7 +284,7 @@ class Gen(object):
         kinds.append(('specials', p['specials']))
         if not math:
             kinds.append(('par', p['par']))
-            if self.v.verb:
+            if self.v.verb or self.v.verb_envs:
                 kinds.append(('verb', p['verb']))
         tot = sum(w for _, w in kinds)
         r = rng.random() * tot
@@ -318,6 +319,13 @@ class Gen(object):
         if k == 'par':
             return ('P', rng.choice(PAR_CHOICES))
         if k == 'verb':
+            if self.v.verb_envs and (not self.v.verb or rng.random() < 0.4):
+                # pylatexenc-3 style verbatim environment: the body is one character node; the newline that ends
+                # the \\begin line is not part of it (blanks before that newline are)
+                txt = ''.join(rng.choice(list(p['verb_chars'] or ()) or ['a', 'b', ' ', '\n', '\\', '{', '}', '$', '%', '&', '\\end{x}'])
+                              for _ in range(rng.randint(0, 6)))
+                txt = rng.choice(['', '', '\n', '\n', ' \n', '\t\n', '  \n', '\n\n', ' ']) + txt
+                return ('VENV', rng.choice(self.v.verb_envs), txt)
             if rng.random() < 0.7:
                 d = rng.choice('|!+/"')
                 txt = ''.join(rng.choice(p['verb_chars'] or 'ab \\{}$%&~_^#[]') for _ in range(rng.randint(0, 5)))
@@ -784,7 +792,10 @@ def expected(doc, vocab, math=False):
         elif k == 'VERB':
             out.append(('M', 'verb', [('VT', it[2])]))
         elif k == 'VENV':
-            out.append(('E', it[1], [('VT', it[2])], []))
+            if it[1] in vocab.verb_envs:
+                out.append(('E', it[1], [], [('VT', it[2][1:] if it[2].startswith('\n') else it[2])]))
+            else:
+                out.append(('E', it[1], [('VT', it[2])], []))
     return out
 
 
